@@ -41,8 +41,7 @@ Print Assumptions C03_sound_fragment_definition_targets.
     following spreads from the operations (Spec.v [vis_op_sites]) — all sites of the operations' own selection
     sets, of inline fragments with and without type condition, of every fragment spread there (transitively, in the
     scope of the spreading operation's variables), directive lists at all six locations, argument values down to
-    nested list / input-object literals — except the contents of a fragment whose type condition is the interface
-    type it is spread in. The subscription rule is not covered (see design/C03.md). *)
+    nested list / input-object literals. The subscription rule is not covered (see design/C03.md). *)
 Theorem C03_sound : forall S D,
   schema_wf S = true -> check_operation_document S D = [] ->
   forall r, r <> R_single_subscription_root -> rule_ok_vis S D r = true.
@@ -128,17 +127,12 @@ Theorem C03_unspread_fragment_refuted :
 Proof. exists w_schema_0, w_doc_0. exact unspread_fragment_refuted. Qed.
 Print Assumptions C03_unspread_fragment_refuted.
 
-Theorem C03_same_interface_refuted :
-  (exists S D, check_operation_document S D = [] /\ rule_ok S D R_fields_exist = false)
-  /\ (exists S D, check_operation_document S D = []
-                  /\ rule_ok S D R_fields_exist = false /\ rule_ok S D R_directives_defined = false
-                  /\ rule_ok S D R_spreads_defined = false).
-Proof.
-  split.
-  - exists w_schema_0, w_doc_1. exact same_interface_inline_refuted.
-  - exists w_schema_0, w_doc_2. exact same_interface_spread_refuted.
-Qed.
-Print Assumptions C03_same_interface_refuted.
+(** regression: the former same-interface blind spot (fixed by /repo commit 762f951) is now reported *)
+Theorem C03_same_interface_now_flagged :
+  (exists p i, check_operation_document w_schema_0 w_doc_1 = [mkErr (FieldNotFound (s "nonexistent") (s "I")) p i])
+  /\ length (check_operation_document w_schema_0 w_doc_2) = 2.
+Proof. exact same_interface_now_flagged. Qed.
+Print Assumptions C03_same_interface_now_flagged.
 
 Theorem C03_custom_scalar_variable_refuted :
   exists S D, check_operation_document S D = [] /\ rule_ok S D R_vars_defined = false.
